@@ -79,8 +79,14 @@ func c37NewUniverse() *c37Universe {
 	subLW := put("tree", c37Tree([][3]string{{"100644", "g", L}, {"100644", "w", W}}), L, W)
 	t5 := put("tree", c37Tree([][3]string{{"100644", "a", X}, {"40000", "d", subKW}}), X, subKW)
 	t6 := put("tree", c37Tree([][3]string{{"100644", "a", X}, {"40000", "d", subLW}}), X, subLW)
-	u.menu = []string{t0, t1, t2, t3, t4, t5, t6}
-	u.names = []string{"T0{a:x d/g:k}", "T1{a:y d/g:k}", "T2{a:x d/g:l s:gitlink}", "T3{a:y d/g:l e/g:k}", "T4{d/h/g:k k:x}", "T5{a:x d/g:k d/w}", "T6{a:x d/g:l d/w}"}
+	// the name d is a directory in T0 and a file in T7 (and the reverse going back); T8 is the empty tree
+	t7 := put("tree", c37Tree([][3]string{{"100644", "a", X}, {"100644", "d", K}}), X, K)
+	t8 := put("tree", nil)
+	if t8 != eEmptyTree {
+		fw.Abort("empty tree id %s", t8)
+	}
+	u.menu = []string{t0, t1, t2, t3, t4, t5, t6, t7, t8}
+	u.names = []string{"T0{a:x d/g:k}", "T1{a:y d/g:k}", "T2{a:x d/g:l s:gitlink}", "T3{a:y d/g:l e/g:k}", "T4{d/h/g:k k:x}", "T5{a:x d/g:k d/w}", "T6{a:x d/g:l d/w}", "T7{a:x d:k (file)}", "T8{} (empty tree)"}
 	return u
 }
 
@@ -229,6 +235,7 @@ func c37Assignments(n, k int, full bool) [][]int {
 		{0, 3, 3, 0, 1}, // subtree k moves between names; palindrome
 		{4, 2, 0, 2, 4}, // deep shared subtree, gitlink
 		{1, 0, 3, 0, 2},
+		{0, 7, 8, 0, 7}, // a directory becomes a file, everything is deleted, and back
 	}
 	var out [][]int
 	for _, p := range pats {
@@ -352,10 +359,11 @@ func runC37(c *fw.Ctx) {
 	npat := map[int]int{4: 3} // quick: reverted directory, reverted content, all-different at 4 commits
 	if c.Thorough() {
 		fullK[3] = 4
-		npat = map[int]int{4: 7, 5: 1}
+		npat = map[int]int{4: 8, 5: 1}
 	}
-	c.Bound("tree_assignments", fmt.Sprintf("every assignment over the first k menu trees for n->k in %v; beyond that the first p of the fixed patterns {reverted directory with an unchanged child, alternating/reverted, all different, constant, palindrome with moved subtree, deep subtree + gitlink, mixed} for n->p in %v; at 5 commits the single mixed pattern T0 T1 T0 T3 T1 (revert, moved subtree, repeat)", fullK, npat))
+	c.Bound("tree_assignments", fmt.Sprintf("every assignment over the first k menu trees for n->k in %v; beyond that the first p of the fixed patterns {reverted directory with an unchanged child, alternating/reverted, all different, constant, palindrome with moved subtree, deep subtree + gitlink, mixed, directory->file->empty tree->back}; additionally for n<=2 every assignment over {T0, T7 (d is a file), T8 (empty tree)} and for n=3 the seven patterns 0 7 0, 7 0 7, 0 8 0, 8 0 8, 0 7 8, 8 7 0, 7 8 7 for n->p in %v; at 5 commits the single mixed pattern T0 T1 T0 T3 T1 (revert, moved subtree, repeat)", fullK, npat))
 	c.Bound("wants_haves", "n<=4: wants every 1- and 2-subset of commits x haves {none, each commit, each pair, commit+missing (every commit for n<=3, c0 at n=4), tag on commit (every / last), missing only, tag->tree, tag->blob, raw tree, raw blob, tag->tag}; wants {tag on each commit, tag->tree, tag->blob, tag->tag->commit, tag->tree + tip, raw tree, raw blob} x haves {none, each commit}; n=5: wants each commit x haves {each commit, each pair}")
+	c.Bound("entry_points", "revlist.Objects on every query; revlist.ObjectsWithRef (keys = selected objects; an object listed under a want must be reachable from it) on every query of the instances with at most 2 commits")
 	c.Bound("conformance_max_commits", confN)
 	c.SetRule("every DAG x weak order x tree assignment x want/have query; revlist.Objects on a memory store holding the raw objects; verdict: reach(wants)\\reach(haves) subset of result subset of reach(wants) under an object-level reachability model; the model's reach sets are replayed against `git rev-list --objects <start>` for every distinct start of the complete space up to conformance_max_commits, and git's own `rev-list --objects wants --not haves` is checked to lie between the same bounds with exactly the model's commits; non-trivial = at least one have present in the store; distinct counts (result vs bounds: exact-lower / between / exact-upper, want kind, have kind, timestamp shape) classes")
 	c.Assume("non-shallow store; gitlink targets are never sent; a missing have is ignored (git upload-pack semantics); git 2.39.5 rev-list is the reference for reach sets")
@@ -377,6 +385,22 @@ func runC37(c *fw.Ctx) {
 				as = [][]int{{0, 1, 0, 3, 1}}
 			}
 		}
+		if n <= 2 {
+			// every assignment over {T0, T7, T8}: file<->directory, the empty tree
+			for _, a := range c37Assignments(n, 3, true) {
+				b := make([]int, n)
+				zero := true
+				for i, x := range a {
+					b[i] = []int{0, 7, 8}[x]
+					zero = zero && x == 0
+				}
+				if !zero {
+					as = append(as, b)
+				}
+			}
+		} else if n == 3 {
+			as = append(as, []int{0, 7, 0}, []int{7, 0, 7}, []int{0, 8, 0}, []int{8, 0, 8}, []int{0, 7, 8}, []int{8, 7, 0}, []int{7, 8, 7})
+		}
 		for _, a := range as {
 			jobs = append(jobs, job{idx, a})
 		}
@@ -392,6 +416,7 @@ func runC37(c *fw.Ctx) {
 		}
 		c37Run(c, cs, j, fails, cs.in.N >= 5)
 	})
+	c37Wide(c, u, fails, c.Pick(6, 7))
 	fails.Report(c)
 
 	t0 := c.Elapsed()
@@ -412,10 +437,16 @@ func c37Hashes(ids []string) []plumbing.Hash {
 }
 
 func c37Run(c *fw.Ctx, cs *c37Case, j int, fails *eFailSet, lite bool) {
+	c37RunQ(c, cs, j, fails, cs.queries(lite), cs.in.N <= 2, "")
+}
+
+// c37RunQ runs the queries on a fresh memory store. withRef: also through
+// ObjectsWithRef. tier is put in the class keys ("" for the main space).
+func c37RunQ(c *fw.Ctx, cs *c37Case, j int, fails *eFailSet, qs []c37Query, withRef bool, tier string) {
 	in := cs.in
 	st := eMemStore(in)
 	shape := in.TimeShape(1<<in.N - 1)
-	for _, q := range cs.queries(lite) {
+	for _, q := range qs {
 		upper := map[string]bool{}
 		for _, w := range q.wants {
 			cs.reach(w, upper)
@@ -494,9 +525,176 @@ func c37Run(c *fw.Ctx, cs *c37Case, j int, fails *eFailSet, lite bool) {
 			if nLower == len(upper) {
 				pos = "disjoint"
 			}
-			c.Class(fmt.Sprintf("%s w%s h%s %s", pos, cs.typeOf(q.wants[0]), cs.typeOf(q.haves[0]), shape))
+			c.Class(fmt.Sprintf("%s%s w%s h%s %s", tier, pos, cs.typeOf(q.wants[0]), cs.typeOf(q.haves[0]), shape))
+		}
+		if !withRef {
+			continue
+		}
+		// the other entry point: ObjectsWithRef (used by upload-pack). Its keys
+		// are the selected objects: same bounds; and an object listed under a
+		// want must be reachable from that want.
+		var ref map[plumbing.Hash][]plumbing.Hash
+		pan = eSafe(func() { ref, err = revlist.ObjectsWithRef(st, c37Hashes(q.wants), c37Hashes(q.haves)) })
+		c.Eval()
+		c.Transitions(1)
+		if pan != "" || err != nil {
+			fails.Add("ObjectsWithRef: panic or error", j, q.label, fmt.Sprint(pan, err), rep(fmt.Sprint("ObjectsWithRef: ", pan, err)))
+			continue
+		}
+		var rmiss, rextra, rwrong []string
+		for id := range upper {
+			if !hv[id] {
+				if _, ok := ref[plumbing.NewHash(id)]; !ok {
+					rmiss = append(rmiss, cs.typeOf(id)+" "+id[:8])
+				}
+			}
+		}
+		perWant := map[string]map[string]bool{}
+		for _, w := range q.wants {
+			perWant[w] = map[string]bool{}
+			cs.reach(w, perWant[w])
+		}
+		for h, ws := range ref {
+			if !upper[h.String()] {
+				rextra = append(rextra, cs.typeOf(h.String())+" "+h.String()[:8])
+			}
+			for _, w := range ws {
+				if pw, ok := perWant[w.String()]; !ok || !pw[h.String()] {
+					rwrong = append(rwrong, cs.typeOf(h.String())+" "+h.String()[:8])
+				}
+			}
+		}
+		if len(rmiss) > 0 {
+			sort.Strings(rmiss)
+			fails.Add("ObjectsWithRef: not selected although reachable from wants only ["+shape+"]", j, q.label, fmt.Sprintf("%v %s missing %v", cs.desc(), q.label, rmiss), rep(map[string]any{"entry_point": "ObjectsWithRef", "missing": rmiss}))
+		}
+		if len(rextra) > 0 {
+			sort.Strings(rextra)
+			fails.Add("ObjectsWithRef: selected although not reachable from wants ["+shape+"]", j, q.label, fmt.Sprintf("%v %s extra %v", cs.desc(), q.label, rextra), rep(map[string]any{"entry_point": "ObjectsWithRef", "extra": rextra}))
+		}
+		if len(rwrong) > 0 {
+			sort.Strings(rwrong)
+			fails.Add("ObjectsWithRef: object listed under a want that does not reach it ["+shape+"]", j, q.label, fmt.Sprintf("%v %s wrong %v", cs.desc(), q.label, rwrong), rep(map[string]any{"entry_point": "ObjectsWithRef", "not_reachable_from_listed_want": rwrong}))
+		}
+		if len(hv) > 0 && len(q.wants) > 1 {
+			c.Class(fmt.Sprintf("%sObjectsWithRef wants=%d selected=%v %s", tier, len(q.wants), len(ref) > 0, shape))
 		}
 	}
+}
+
+// ---- the wide tier: more queue entries than any window -------------------
+//
+// k independent branches root_i <- tip_i (optionally all roots on one base
+// commit), every branch in one of the roles {untouched, tip wanted, tip had,
+// tip wanted + root had}, under timestamp layouts that put the roots that are
+// painted from both sides before or after the want-only ones. The commit
+// queue of the painted walk then holds up to 2k entries of every kind.
+func c37Wide(c *fw.Ctx, u *c37Universe, fails *eFailSet, k int) {
+	type layout struct {
+		name  string
+		ranks func(base bool) []int // per commit
+	}
+	idxRoot := func(base bool, i int) int {
+		if base {
+			return 1 + 2*i
+		}
+		return 2 * i
+	}
+	mk := func(base bool, baseRank int, root, tip func(i int) int) []int {
+		n := 2 * k
+		if base {
+			n++
+		}
+		r := make([]int, n)
+		if base {
+			r[0] = baseRank
+		}
+		for i := 0; i < k; i++ {
+			r[idxRoot(base, i)] = root(i)
+			r[idxRoot(base, i)+1] = tip(i)
+		}
+		return r
+	}
+	layouts := []layout{
+		{"roots ascending then tips", func(b bool) []int { return mk(b, 0, func(i int) int { return 1 + i }, func(i int) int { return 1 + k + i }) }},
+		{"roots descending then tips", func(b bool) []int { return mk(b, 0, func(i int) int { return k - i }, func(i int) int { return 1 + k + i }) }},
+		{"tips older than roots, base newest", func(b bool) []int { return mk(b, 2*k+1, func(i int) int { return 1 + k + i }, func(i int) int { return 1 + i }) }},
+		{"all equal", func(b bool) []int { return mk(b, 0, func(int) int { return 0 }, func(int) int { return 0 }) }},
+		{"branch after branch", func(b bool) []int { return mk(b, 0, func(i int) int { return 2*i + 1 }, func(i int) int { return 2*i + 2 }) }},
+		{"branch after branch, descending", func(b bool) []int {
+			return mk(b, 0, func(i int) int { return 2*(k-i) - 1 }, func(i int) int { return 2 * (k - i) })
+		}},
+	}
+	var lnames []string
+	for _, l := range layouts {
+		lnames = append(lnames, l.name)
+	}
+	c.Bound("wide_tier", fmt.Sprintf("%d branches root<-tip, with and without a common base commit; root trees T(i mod 7), tip trees T((i+1) mod 7); timestamp layouts %v; every assignment of the roles {untouched, tip wanted, tip had, tip wanted + root had} to the branches with at least one want (4^%d-2^%d queries per instance)", k, lnames, k, k))
+	type wjob struct {
+		base bool
+		l    int
+	}
+	var jobs []wjob
+	for _, b := range []bool{false, true} {
+		for l := range layouts {
+			jobs = append(jobs, wjob{b, l})
+		}
+	}
+	c.States(len(jobs))
+	c.ParDo(len(jobs), 0, func(j int) {
+		jb := jobs[j]
+		var d fw.DAG
+		var assign []int
+		if jb.base {
+			d.Parents = append(d.Parents, []int{})
+			assign = append(assign, 4)
+		}
+		for i := 0; i < k; i++ {
+			r := idxRoot(jb.base, i)
+			if jb.base {
+				d.Parents = append(d.Parents, []int{0}, []int{r})
+			} else {
+				d.Parents = append(d.Parents, []int{}, []int{r})
+			}
+			assign = append(assign, i%7, (i+1)%7)
+		}
+		cs := c37NewCase(u, d, layouts[jb.l].ranks(jb.base), assign)
+		in := cs.in
+		var qs []c37Query
+		total := 1
+		for i := 0; i < k; i++ {
+			total *= 4
+		}
+		for code := 0; code < total; code++ {
+			var q c37Query
+			var lab []string
+			x := code
+			for i := 0; i < k; i++ {
+				r := idxRoot(jb.base, i)
+				switch x % 4 {
+				case 1:
+					q.wants = append(q.wants, in.ID[r+1])
+					lab = append(lab, "W")
+				case 2:
+					q.haves = append(q.haves, in.ID[r+1])
+					lab = append(lab, "H")
+				case 3:
+					q.wants = append(q.wants, in.ID[r+1])
+					q.haves = append(q.haves, in.ID[r])
+					lab = append(lab, "Wh")
+				default:
+					lab = append(lab, "-")
+				}
+				x /= 4
+			}
+			if len(q.wants) == 0 {
+				continue
+			}
+			q.label = fmt.Sprintf("wide base=%v layout=%q roles=%s", jb.base, layouts[jb.l].name, strings.Join(lab, ""))
+			qs = append(qs, q)
+		}
+		c37RunQ(c, cs, 1<<30+j, fails, qs, false, "wide ")
+	})
 }
 
 // ---------------------------------------------------------------------------
